@@ -40,6 +40,7 @@ type Op struct {
 	AC     bool  `json:"ac"`
 	Conc   bool  `json:"conc"`
 	Struct *bool `json:"struct"`
+	ACL    bool  `json:"acl"`
 }
 
 type runner struct {
@@ -66,22 +67,33 @@ func guard(f func() error) (es string, panicked bool) {
 	return vt.ErrStr(err), false
 }
 
+// ndisk counts the entries of the sorter's temporary directory (-1: no directory).
+func ndisk(m *morass.Morass) int {
+	fis, err := ioutil.ReadDir(m.VerifDir())
+	if err != nil {
+		return -1
+	}
+	return len(fis)
+}
+
 func view(m *morass.Morass) vt.Ev {
 	v := m.VerifView()
-	return vt.Ev{"fast": v.Fast, "chunknil": v.ChunkNil, "chunklen": v.ChunkLen, "nfiles": v.NFiles, "pool": v.Pool}
+	return vt.Ev{"fast": v.Fast, "chunknil": v.ChunkNil, "chunklen": v.ChunkLen, "nfiles": v.NFiles, "pool": v.Pool, "ndisk": ndisk(m)}
 }
 
 func (r *runner) emit(e vt.Ev, quiescent bool) {
 	e["pos"] = r.m.Pos()
 	e["len"] = r.m.Len()
+	e["ndisk"] = -2 // not observed
 	if quiescent {
+		e["ndisk"] = ndisk(r.m)
 		e["view"] = view(r.m)
 	}
 	r.w.Emit(e)
 }
 
 // Run executes one plan on a fresh sorter and logs it as one trace segment.
-func Run(w *vt.W, id int, cs int, ac, conc, strukt bool, ops []Op, modelKD int) {
+func Run(w *vt.W, id int, cs int, ac, conc, strukt, acl bool, ops []Op, modelKD int) {
 	dir, err := ioutil.TempDir(vt.ScratchBase(), "vmorass")
 	if err != nil {
 		vt.Fatal("tempdir: %v", err)
@@ -98,8 +110,9 @@ func Run(w *vt.W, id int, cs int, ac, conc, strukt bool, ops []Op, modelKD int) 
 	}
 	defer m.CleanUp()
 	m.AutoClear = ac
+	m.AutoClean = acl
 	r := &runner{w: w, m: m, strukt: strukt, conc: conc}
-	w.Emit(vt.Ev{"op": "reset", "id": id, "cs": cs, "ac": ac, "conc": conc, "struct": strukt})
+	w.Emit(vt.Ev{"op": "reset", "id": id, "cs": cs, "ac": ac, "conc": conc, "struct": strukt, "acl": acl})
 	draining := false
 	for _, o := range ops {
 		var es string
@@ -138,14 +151,18 @@ func Run(w *vt.W, id int, cs int, ac, conc, strukt bool, ops []Op, modelKD int) 
 				return err
 			})
 			r.emit(vt.Ev{"op": "pull", "v": v, "err": es}, !bad)
+		case "cleanup":
+			es, bad = guard(m.CleanUp)
+			r.emit(vt.Ev{"op": "cleanup", "err": es}, true)
+			return
 		case "clear":
 			es, bad = guard(m.Clear)
 			r.emit(vt.Ev{"op": "clear", "err": es}, !bad)
 			r.nextID = 0
 			draining = false
 		}
-		if bad {
-			return // the segment is already rejected; the sorter is unusable
+		if bad || ndisk(m) < 0 {
+			return // rejected already, or AutoClean has removed the sorter's directory
 		}
 		if ac && draining && m.Len() == 0 && m.Pos() == 0 {
 			// AutoClear fired inside Pull: identities may be reused.
@@ -177,7 +194,7 @@ func Replay(w *vt.W, path string, modelKD int, seed int64) int {
 		if h.Struct != nil {
 			strukt = *h.Struct
 		}
-		Run(w, n, h.CS, h.AC, h.Conc, strukt, ops[1:], modelKD)
+		Run(w, n, h.CS, h.AC, h.Conc, strukt, h.ACL, ops[1:], modelKD)
 		n++
 	}
 	return n
@@ -229,6 +246,16 @@ func Random(w *vt.W, rng *rand.Rand, n int, big, forceConc bool) {
 				ops = append(ops, Op{Op: "clear"})
 			}
 		}
-		Run(w, id, cs, ac, conc, rng.Intn(2) == 0, ops, 1)
+		acl := rng.Intn(5) == 0
+		if rng.Intn(6) == 0 {
+			// CleanUp at a random point; in concurrent mode not while
+			// background writers may be running (between a push and Finalise)
+			k := rng.Intn(len(ops))
+			for conc && ops[k].Op == "push" {
+				k++
+			}
+			ops = append(ops[:k+1], Op{Op: "cleanup"})
+		}
+		Run(w, id, cs, ac, conc, rng.Intn(2) == 0, acl, ops, 1)
 	}
 }
